@@ -3,6 +3,7 @@
 From Coq Require Import Lia.
 From Verif Require Import Json Outcome Match PatIndex State Location SysOps.
 From Verif Require Import StateSpec AssocLemmas CascadeSpec CascadeLemmas1 CascadeTerm GateProofs LocSpec.
+From Verif Require StateProofs.
 
 (** * Systems as maps *)
 
@@ -72,6 +73,111 @@ Proof.
   - injection H as <- _. exact Hw.
 Qed.
 
+(** * The purge only shrinks the fact map; the readers only note *)
+
+Lemma purge_fsub s now : fsub (st_facts (fst (purge s now))) (st_facts s).
+Proof.
+  apply (StateProofs.purge_inv (fun s' => fsub (st_facts s') (st_facts s))).
+  - intros s' p H. exact H.
+  - intros s' id now' H. eapply fsub_trans; [apply st_rem_fsub|exact H].
+  - apply fsub_refl.
+Qed.
+
+Lemma with_purge_fsub {A} (r : state * outcome A) now :
+  fsub (st_facts (fst (with_purge r now))) (st_facts (fst r)).
+Proof. unfold with_purge. cbn [fst]. apply purge_fsub. Qed.
+
+(** the lookup only notes *)
+Lemma get_body_facts s id now : st_facts (fst (get_body s id now)) = st_facts s.
+Proof.
+  unfold get_body. destruct (alookup id (st_facts s)) as [fact|]; [|reflexivity].
+  pose proof (expire_facts now s id fact) as H.
+  destruct (expire s id fact now) as [s1 [|]]; exact H.
+Qed.
+
+(** what State.Get answers *)
+Lemma st_get_snd s id now :
+  snd (st_get s id now) =
+  match alookup id (st_facts s) with
+  | Some f => if fact_expired f now then Err "notfound" else Ok f
+  | None => Err "notfound"
+  end.
+Proof.
+  unfold st_get. rewrite snd_with_purge. unfold get_body, expire.
+  destruct (alookup id (st_facts s)) as [f|]; [|reflexivity].
+  destruct (fact_expired f now); reflexivity.
+Qed.
+
+Lemma st_get_pending s id now : st_pending (fst (st_get s id now)) = [].
+Proof. apply with_purge_pending. Qed.
+
+Lemma st_Rem_pending s id now : st_pending (fst (st_Rem s id now)) = [].
+Proof. apply with_purge_pending. Qed.
+
+Lemma st_search_pending s p now : st_pending (fst (st_search s p now)) = [].
+Proof. apply with_purge_pending. Qed.
+
+Lemma st_find_rules_fst s event now : fst (st_find_rules s event now) = fst (do_find_rules s event now).
+Proof.
+  unfold st_find_rules. destruct (do_find_rules s event now) as [s1 res].
+  cbn [fst]. destruct res as [l|e|w|]; reflexivity.
+Qed.
+
+Lemma st_find_rules_pending s ev now : st_pending (fst (st_find_rules s ev now)) = [].
+Proof. rewrite st_find_rules_fst. apply with_purge_pending. Qed.
+
+(** adding and clearing never touch the list of noted ids *)
+Lemma st_add_mem_idx_pending s id fact : st_pending (fst (st_add_mem_idx s id fact)) = st_pending s.
+Proof.
+  destruct (st_add_mem_idx s id fact) as [s' e] eqn:E.
+  destruct (StateProofs.st_add_mem_idx_spec s id fact s' e E) as (s2 & Heq & Hs').
+  assert (Hp : st_pending s2 = st_pending s) by apply Heq.
+  cbn [fst]. destruct e; subst s'; exact Hp.
+Qed.
+
+Lemma st_add_pending s given x now fresh aux :
+  st_pending (fst (st_add s given x now fresh aux)) = st_pending s.
+Proof.
+  unfold st_add. destruct (prepare_fact given x now fresh aux) as [[id fact]|e|w|]; try reflexivity.
+  destruct (st_kind s).
+  - destruct (extract_rule fact false) as [rule|e|w|]; try reflexivity.
+    destruct (add_hook_err s fact) as [e|]; [reflexivity|].
+    pose proof (st_add_mem_idx_pending s id fact) as H.
+    destruct (st_add_mem_idx s id fact) as [s1 [e|]]; cbn [fst] in *; [exact H|].
+    unfold store_call. cbv beta iota zeta.
+    match goal with |- context [if ?c then _ else _] => destruct c end; exact H.
+  - unfold store_call. cbv beta iota zeta.
+    match goal with |- context [if ?c then _ else _] => destruct c end; [reflexivity|].
+    destruct (add_hook_err s fact); reflexivity.
+Qed.
+
+Lemma st_clear_pending s : st_pending (fst (st_clear s)) = st_pending s.
+Proof.
+  unfold st_clear, store_call. cbv beta iota zeta.
+  destruct (st_kind s); match goal with |- context [if ?c then _ else _] => destruct c end; reflexivity.
+Qed.
+
+(** a reloaded state has no id noted *)
+Lemma load_idx_pending now pairs : forall s, st_pending (fst (load_idx s pairs now)) = st_pending s.
+Proof.
+  induction pairs as [|[id x] r IH]; intros s; cbn [load_idx]; [reflexivity|].
+  destruct (prepare_fact id x now id None) as [[id' fact]|e|w|]; try reflexivity.
+  - pose proof (st_add_mem_idx_pending s id' fact) as H.
+    destruct (st_add_mem_idx s id' fact) as [s1 [e|]]; cbn [fst] in *; [exact H|].
+    rewrite IH. exact H.
+  - destruct (String.eqb e "expired"); [|reflexivity].
+    unfold store_call. cbv beta iota zeta.
+    match goal with |- context [if ?c then _ else _] => destruct c end; [reflexivity|].
+    rewrite IH. reflexivity.
+Qed.
+
+Lemma st_load_pending k hooks store now : st_pending (fst (st_load k hooks store now)) = [].
+Proof.
+  unfold st_load, store_call. cbv beta iota zeta.
+  match goal with |- context [if ?c then _ else _] => destruct c end; [reflexivity|].
+  destruct k; [|reflexivity]. rewrite load_idx_pending. reflexivity.
+Qed.
+
 (** * Facts only shrink under reads and removals *)
 
 Definition lsub (l' l : loc) : Prop :=
@@ -90,22 +196,24 @@ Qed.
 Lemma lsub_upd l s : fsub (st_facts s) (st_facts (l_state l)) -> lsub (upd_state l s) l.
 Proof. intros H. repeat split. exact H. Qed.
 
-Lemma nothing_expired_lsub l' l now : lsub l' l -> nothing_expired l now -> nothing_expired l' now.
+(** (the smaller location must have no purge pending: [lsub] only speaks of the facts) *)
+Lemma nothing_expired_lsub l' l now :
+  lsub l' l -> st_pending (l_state l') = [] -> nothing_expired l now -> nothing_expired l' now.
 Proof.
-  intros (H & _) Hn id fact Hl. apply (Hn id fact). eapply fsub_lookup; eassumption.
+  intros (H & _) Hp Hn. split; [|exact Hp]. intros id fact Hl. apply (proj1 Hn id fact).
+  eapply fsub_lookup; eassumption.
 Qed.
 
 Lemma st_get_fsub s id now : fsub (st_facts (fst (st_get s id now))) (st_facts s).
 Proof.
-  unfold st_get. destruct (alookup id (st_facts s)) as [fact|]; [|apply fsub_refl].
-  destruct (fact_expired fact now); [|apply fsub_refl].
-  pose proof (st_rem_fsub s id now) as H.
-  destruct (st_rem s id now) as [s1 [b|e|w|]]; exact H.
+  unfold st_get. eapply fsub_trans; [apply with_purge_fsub|].
+  rewrite get_body_facts. apply fsub_refl.
 Qed.
 
 Lemma st_Rem_fsub s id now : fsub (st_facts (fst (st_Rem s id now))) (st_facts s).
 Proof.
-  unfold st_Rem. destruct (st_hooks s); [|apply st_rem_fsub].
+  unfold st_Rem. eapply fsub_trans; [apply with_purge_fsub|].
+  destruct (st_hooks s); [|apply st_rem_fsub].
   pose proof (st_get_fsub s id now) as H.
   destruct (st_get s id now) as [s1 [f|e|w|]]; cbn [fst] in *; try exact H.
   eapply fsub_trans; [apply st_rem_fsub|exact H].
@@ -168,102 +276,121 @@ Proof.
   eapply lsub_trans; [apply Hk|exact H].
 Qed.
 
-(** * Searches only shrink the facts, and change nothing when nothing has expired *)
+(** * Searches only note: the facts stay, and nothing changes when nothing has expired *)
 
 Lemma st_rem_rec_fsub s id now : fsub (st_facts (fst (st_rem_rec s id now))) (st_facts s).
 Proof. exact (st_rem_fsub s id now). Qed.
 
 Lemma expire_fsub s id fact now :
-  fsub (st_facts (fst (fst (expire st_rem_rec s id fact now)))) (st_facts s).
-Proof.
-  unfold expire. destruct (fact_expired fact now); [|apply fsub_refl].
-  pose proof (st_rem_rec_fsub s id now) as H.
-  destruct (st_rem_rec s id now) as [s' o]. cbn [fst] in *.
-  destruct (S (count_facts s') <? count_facts s)%nat; exact H.
-Qed.
+  fsub (st_facts (fst (expire s id fact now))) (st_facts s).
+Proof. rewrite (expire_facts now s id fact). apply fsub_refl. Qed.
 
-Lemma expire_noexp rr s id fact now :
-  fact_expired fact now = false -> expire rr s id fact now = (s, false, None).
-Proof. intros H. unfold expire. rewrite H. reflexivity. Qed.
+Lemma expire_noexp s id fact now :
+  fact_expired fact now = false -> expire s id fact now = (s, false).
+Proof. apply StateProofs.expire_false. Qed.
 
-Lemma search_ids_fsub pattern now ids : forall s acc,
-  fsub (st_facts (fst (search_ids st_rem_rec s ids pattern now acc))) (st_facts s).
+Lemma search_ids_facts pattern now ids : forall s acc,
+  st_facts (fst (search_ids s ids pattern now acc)) = st_facts s.
 Proof.
-  induction ids as [|id r IH]; intros s acc; cbn [search_ids]; [apply fsub_refl|].
+  induction ids as [|id r IH]; intros s acc; cbn [search_ids]; [reflexivity|].
   destruct (alookup id (st_facts s)) as [fact|]; [|apply IH].
-  pose proof (expire_fsub s id fact now) as He.
-  destruct (expire st_rem_rec s id fact now) as [[s1 ex] err]. cbn [fst] in He.
-  assert (Hw : forall acc', fsub (st_facts (fst (search_ids st_rem_rec s1 r pattern now acc'))) (st_facts s)).
-  { intros acc'. eapply fsub_trans; [apply IH|exact He]. }
-  destruct (expire_stops (st_kind s) err); [exact He|].
+  pose proof (expire_facts now s id fact) as He.
+  destruct (expire s id fact now) as [s1 ex]. cbn [fst] in He.
+  assert (Hw : forall acc', st_facts (fst (search_ids s1 r pattern now acc')) = st_facts s).
+  { intros acc'. rewrite IH. exact He. }
   destruct ex; [apply Hw|].
   destruct (core_match pattern fact []) as [[|b bss]|e|w|]; cbn [fst]; try apply Hw; exact He.
 Qed.
 
-Lemma search_ids_noexp_same rr pattern now ids : forall s acc,
-  no_expired s now -> fst (search_ids rr s ids pattern now acc) = s.
+Lemma search_state_facts s pattern now : st_facts (fst (search_state s pattern now)) = st_facts s.
+Proof.
+  unfold search_state. destruct (st_kind s).
+  - destruct (ti_search (st_tindex s) (extract_terms pattern)); cbn [fst]; try reflexivity.
+    apply search_ids_facts.
+  - apply search_ids_facts.
+Qed.
+
+Lemma search_ids_fsub pattern now ids : forall s acc,
+  fsub (st_facts (fst (search_ids s ids pattern now acc))) (st_facts s).
+Proof. intros s acc. rewrite search_ids_facts. apply fsub_refl. Qed.
+
+Lemma search_ids_noexp_same pattern now ids : forall s acc,
+  no_expired s now -> fst (search_ids s ids pattern now acc) = s.
 Proof.
   induction ids as [|id r IH]; intros s acc Hn; cbn [search_ids]; [reflexivity|].
   destruct (alookup id (st_facts s)) as [fact|] eqn:El; [|apply IH; exact Hn].
-  rewrite (expire_noexp rr s id fact now (Hn id fact El)).
-  cbv beta iota delta [expire_stops].
+  rewrite (expire_noexp s id fact now (Hn id fact El)).
   destruct (core_match pattern fact []) as [[|b bss]|e|w|]; cbn [fst]; try (apply IH; exact Hn); reflexivity.
 Qed.
 
-Lemma st_search_fsub s pattern now : fsub (st_facts (fst (st_search s pattern now))) (st_facts s).
+Lemma search_state_noexp_same s pattern now : no_expired s now -> fst (search_state s pattern now) = s.
 Proof.
-  unfold st_search, search_state. destruct (st_kind s).
-  - destruct (ti_search (st_tindex s) (extract_terms pattern)); cbn [fst]; try apply fsub_refl.
-    apply search_ids_fsub.
-  - apply search_ids_fsub.
-Qed.
-
-Lemma st_search_noexp s pattern now : no_expired s now -> fst (st_search s pattern now) = s.
-Proof.
-  intros Hn. unfold st_search, search_state. destruct (st_kind s).
+  intros Hn. unfold search_state. destruct (st_kind s).
   - destruct (ti_search (st_tindex s) (extract_terms pattern)); cbn [fst]; try reflexivity.
     apply search_ids_noexp_same; exact Hn.
   - apply search_ids_noexp_same; exact Hn.
 Qed.
 
-Lemma find_ids_idx_fsub now ids : forall s acc,
-  fsub (st_facts (fst (find_ids_idx s ids now acc))) (st_facts s).
+Lemma st_search_fsub s pattern now : fsub (st_facts (fst (st_search s pattern now))) (st_facts s).
 Proof.
-  induction ids as [|id r IH]; intros s acc; cbn [find_ids_idx]; [apply fsub_refl|].
-  destruct (alookup id (st_facts s)) as [fact|]; [|apply fsub_refl].
-  pose proof (expire_fsub s id fact now) as He.
-  destruct (expire st_rem_rec s id fact now) as [[s1 ex] err]. cbn [fst] in He.
-  assert (Hw : forall acc', fsub (st_facts (fst (find_ids_idx s1 r now acc'))) (st_facts s)).
-  { intros acc'. eapply fsub_trans; [apply IH|exact He]. }
+  unfold st_search. eapply fsub_trans; [apply with_purge_fsub|].
+  rewrite search_state_facts. apply fsub_refl.
+Qed.
+
+Lemma st_search_noexp s pattern now :
+  no_expired s now -> st_pending s = [] -> fst (st_search s pattern now) = s.
+Proof.
+  intros Hn Hp. unfold st_search.
+  pose proof (search_state_noexp_same s pattern now Hn) as H.
+  destruct (search_state s pattern now) as [s1 o]. cbn [fst] in H. subst s1.
+  rewrite (StateProofs.with_purge_nil s o now Hp). reflexivity.
+Qed.
+
+Lemma find_ids_idx_facts now ids : forall s acc,
+  st_facts (fst (find_ids_idx s ids now acc)) = st_facts s.
+Proof.
+  induction ids as [|id r IH]; intros s acc; cbn [find_ids_idx]; [reflexivity|].
+  destruct (alookup id (st_facts s)) as [fact|]; [|reflexivity].
+  pose proof (expire_facts now s id fact) as He.
+  destruct (expire s id fact now) as [s1 ex]. cbn [fst] in He.
+  assert (Hw : forall acc', st_facts (fst (find_ids_idx s1 r now acc')) = st_facts s).
+  { intros acc'. rewrite IH. exact He. }
   destruct ex; [apply Hw|].
   destruct (extract_rule fact true) as [[body|]|e|w|]; cbn [fst]; try apply Hw; exact He.
 Qed.
+
+Lemma find_ids_idx_fsub now ids : forall s acc,
+  fsub (st_facts (fst (find_ids_idx s ids now acc))) (st_facts s).
+Proof. intros s acc. rewrite find_ids_idx_facts. apply fsub_refl. Qed.
 
 Lemma find_ids_idx_noexp now ids : forall s acc,
   no_expired s now -> fst (find_ids_idx s ids now acc) = s.
 Proof.
   induction ids as [|id r IH]; intros s acc Hn; cbn [find_ids_idx]; [reflexivity|].
   destruct (alookup id (st_facts s)) as [fact|] eqn:El; [|reflexivity].
-  rewrite (expire_noexp st_rem_rec s id fact now (Hn id fact El)).
+  rewrite (expire_noexp s id fact now (Hn id fact El)).
   destruct (extract_rule fact true) as [[body|]|e|w|]; cbn [fst]; try (apply IH; exact Hn); reflexivity.
 Qed.
 
-Lemma find_ids_lin_fsub event now ids : forall s acc,
-  fsub (st_facts (fst (find_ids_lin s ids event now acc))) (st_facts s).
+Lemma find_ids_lin_facts event now ids : forall s acc,
+  st_facts (fst (find_ids_lin s ids event now acc)) = st_facts s.
 Proof.
-  induction ids as [|id r IH]; intros s acc; cbn [find_ids_lin]; [apply fsub_refl|].
+  induction ids as [|id r IH]; intros s acc; cbn [find_ids_lin]; [reflexivity|].
   destruct (alookup id (st_facts s)) as [fact|]; [|apply IH].
   destruct (jget "rule" fact) as [rule|]; [|apply IH].
-  pose proof (expire_fsub s id fact now) as He.
-  destruct (expire st_rem_rec s id fact now) as [[s1 ex] err]. cbn [fst] in He.
-  assert (Hw : forall acc', fsub (st_facts (fst (find_ids_lin s1 r event now acc'))) (st_facts s)).
-  { intros acc'. eapply fsub_trans; [apply IH|exact He]. }
-  destruct err; [exact He|].
+  pose proof (expire_facts now s id fact) as He.
+  destruct (expire s id fact now) as [s1 ex]. cbn [fst] in He.
+  assert (Hw : forall acc', st_facts (fst (find_ids_lin s1 r event now acc')) = st_facts s).
+  { intros acc'. rewrite IH. exact He. }
   destruct ex; [apply Hw|].
   destruct rule as [| | | | |rm]; try apply Hw.
   destruct (alookup "when" rm) as [[| | | | |w]|]; try apply Hw.
   destruct (core_match _ event []) as [[|b bss]|e|w'|]; cbn [fst]; try apply Hw; exact He.
 Qed.
+
+Lemma find_ids_lin_fsub event now ids : forall s acc,
+  fsub (st_facts (fst (find_ids_lin s ids event now acc))) (st_facts s).
+Proof. intros s acc. rewrite find_ids_lin_facts. apply fsub_refl. Qed.
 
 Lemma find_ids_lin_noexp event now ids : forall s acc,
   no_expired s now -> fst (find_ids_lin s ids event now acc) = s.
@@ -271,43 +398,38 @@ Proof.
   induction ids as [|id r IH]; intros s acc Hn; cbn [find_ids_lin]; [reflexivity|].
   destruct (alookup id (st_facts s)) as [fact|] eqn:El; [|apply IH; exact Hn].
   destruct (jget "rule" fact) as [rule|]; [|apply IH; exact Hn].
-  rewrite (expire_noexp st_rem_rec s id fact now (Hn id fact El)).
+  rewrite (expire_noexp s id fact now (Hn id fact El)).
   destruct rule as [| | | | |rm]; try (apply IH; exact Hn).
   destruct (alookup "when" rm) as [[| | | | |w]|]; try (apply IH; exact Hn).
   destruct (core_match _ event []) as [[|b bss]|e|w'|]; cbn [fst]; try (apply IH; exact Hn); reflexivity.
 Qed.
 
-Lemma st_find_rules_fst s event now :
-  fst (st_find_rules s event now) =
-  fst (match st_kind s with
-       | Indexed =>
-           match pi_search (st_pindex s) event with
-           | Ok ids => find_ids_idx s ids now []
-           | Err e => (s, Err e)
-           | Panic w => (s, Panic w)
-           | OutOfFuel => (s, OutOfFuel)
-           end
-       | Linear => find_ids_lin s (map fst (st_facts s)) event now []
-       end).
+Lemma do_find_rules_fsub s event now : fsub (st_facts (fst (do_find_rules s event now))) (st_facts s).
 Proof.
-  unfold st_find_rules.
-  match goal with |- fst (let '(s1, res) := ?X in _) = _ => destruct X as [s1 res] end.
-  cbn [fst]. destruct res as [l|e|w|]; reflexivity.
-Qed.
-
-Lemma st_find_rules_fsub s event now : fsub (st_facts (fst (st_find_rules s event now))) (st_facts s).
-Proof.
-  rewrite st_find_rules_fst. destruct (st_kind s).
+  unfold do_find_rules. eapply fsub_trans; [apply with_purge_fsub|]. destruct (st_kind s).
   - destruct (pi_search (st_pindex s) event); cbn [fst]; try apply fsub_refl. apply find_ids_idx_fsub.
   - apply find_ids_lin_fsub.
 Qed.
 
-Lemma st_find_rules_noexp s event now : no_expired s now -> fst (st_find_rules s event now) = s.
+Lemma do_find_rules_noexp s event now :
+  no_expired s now -> st_pending s = [] -> fst (do_find_rules s event now) = s.
 Proof.
-  intros Hn. rewrite st_find_rules_fst. destruct (st_kind s).
-  - destruct (pi_search (st_pindex s) event); cbn [fst]; try reflexivity. apply find_ids_idx_noexp; exact Hn.
-  - apply find_ids_lin_noexp; exact Hn.
+  intros Hn Hp. unfold do_find_rules.
+  match goal with |- fst (with_purge ?X now) = s => set (r := X) end.
+  assert (H : fst r = s).
+  { subst r. destruct (st_kind s).
+    - destruct (pi_search (st_pindex s) event); cbn [fst]; try reflexivity. apply find_ids_idx_noexp; exact Hn.
+    - apply find_ids_lin_noexp; exact Hn. }
+  clearbody r. destruct r as [s1 o]. cbn [fst] in H. subst s1.
+  rewrite (StateProofs.with_purge_nil s o now Hp). reflexivity.
 Qed.
+
+Lemma st_find_rules_fsub s event now : fsub (st_facts (fst (st_find_rules s event now))) (st_facts s).
+Proof. rewrite st_find_rules_fst. apply do_find_rules_fsub. Qed.
+
+Lemma st_find_rules_noexp s event now :
+  no_expired s now -> st_pending s = [] -> fst (st_find_rules s event now) = s.
+Proof. intros Hn Hp. rewrite st_find_rules_fst. apply do_find_rules_noexp; assumption. Qed.
 
 (** * Location-level reads *)
 
@@ -336,14 +458,14 @@ Lemma loc_search_local_noexp l c e p :
   nothing_expired l (e_now e) -> fst (loc_search_local l c e p) = l.
 Proof.
   intros Hn. unfold loc_search_local. apply gated_noexp; [exact Hn|].
-  unfold lift. cbn [fst]. rewrite st_search_noexp by exact Hn. apply upd_state_same.
+  unfold lift. cbn [fst]. rewrite (st_search_noexp _ _ _ (proj1 Hn) (proj2 Hn)). apply upd_state_same.
 Qed.
 
 Lemma loc_rules_local_noexp l c e ev :
   nothing_expired l (e_now e) -> fst (loc_rules_local l c e ev) = l.
 Proof.
   intros Hn. unfold loc_rules_local. apply gated_noexp; [exact Hn|].
-  unfold lift. cbn [fst]. rewrite st_find_rules_noexp by exact Hn. apply upd_state_same.
+  unfold lift. cbn [fst]. rewrite (st_find_rules_noexp _ _ _ (proj1 Hn) (proj2 Hn)). apply upd_state_same.
 Qed.
 
 Lemma get_parents_lsub l now : lsub (fst (get_parents l now)) l.
@@ -446,7 +568,9 @@ Qed.
 Lemma st_Rem_gone s id now b :
   snd (st_Rem s id now) = Ok b -> alookup id (st_facts (fst (st_Rem s id now))) = None.
 Proof.
-  unfold st_Rem. destruct (st_hooks s); [|apply st_rem_gone].
+  unfold st_Rem. rewrite snd_with_purge. intros H.
+  eapply fsub_lookup_None; [apply with_purge_fsub|]. revert H.
+  destruct (st_hooks s); [|apply st_rem_gone].
   destruct (st_get s id now) as [s1 [f|e|w|]]; cbn [snd]; try discriminate.
   apply st_rem_gone.
 Qed.
